@@ -23,7 +23,7 @@ func c05Alphabet(reduced bool) []amgr.Op {
 	a := []amgr.Op{
 		{K: "unlock"}, {K: "lock"}, {K: "unlock_wrong"}, {K: "chpass_priv"}, {K: "restart"},
 		{K: "next_ext", N: 1}, {K: "derive_cache", N: 0}, {K: "lookup_all"}, {K: "import_priv", N: 1},
-		{K: "import_wscript", N: 1}, {K: "new_watch_account"}, {K: "next_ext", A: 1, N: 1},
+		{K: "import_wscript", N: 1}, {K: "new_watch_account"}, {K: "next_ext", A: 1, N: 1}, {K: "invalidate_cache"},
 	}
 	if !reduced {
 		a = append(a, amgr.Op{K: "unlock_old"}, amgr.Op{K: "chpass_pub"}, amgr.Op{K: "extend_ext", N: 2},
@@ -69,10 +69,11 @@ func c05Exec(worker int, j amgr.Job, codes map[string]int, fail func(sig, msg st
 			probes = w.MakeProbes()
 		}
 	}
+	endState := fmt.Sprintf("locked=%v/watching=%v", w.Locked, w.Watching)
 	evals += w.CheckAccess(j.Focus, probes, codes, fail)
 	evals += w.CheckWiped(fail)
 	evals += w.CheckUnlockSemantics(fail)
-	return evals, fmt.Sprintf("%s/locked=%v/watching=%v", outcome, w.Locked, w.Watching)
+	return evals, outcome + "/" + endState
 }
 
 func runC05(args []string) {
